@@ -19,6 +19,7 @@ import (
 
 	"github.com/a-h/templ/cmd/templ/generatecmd/proxy"
 	"github.com/a-h/templ/zzverif/kernel"
+	"github.com/a-h/templ/zzverif/shim/simhook"
 )
 
 var errReset = errors.New("sim: connection reset by peer")
@@ -110,6 +111,51 @@ type world struct {
 	bcasts  []string
 	start   time.Time
 	trace   []string
+	// unstarted is the number of broadcasts whose per-client delivery goroutines exist but
+	// have not run yet (they are parked at their goroutine-start seam).
+	unstarted int
+}
+
+// deliveries returns the delivery goroutines parked at their start seam.
+func (w *world) deliveries() []*kernel.Parked {
+	var out []*kernel.Parked
+	for _, p := range w.k.ParkedList() {
+		if strings.HasPrefix(p.Name, "go:") {
+			out = append(out, p)
+		}
+	}
+	return out
+}
+
+// startDeliveries lets every created-but-not-started delivery goroutine run (they are
+// indistinguishable to the simulator, so they are released as one group).
+func (w *world) startDeliveries() {
+	ps := w.deliveries()
+	w.unstarted = 0
+	if len(ps) == 0 {
+		return
+	}
+	w.k.Count("probe_delivery_goroutines_started_late", int64(len(ps)))
+	// one at a time, in creation order: goroutines of different broadcasts for one client
+	// must queue on its channel in broadcast order; those of one broadcast (created in map
+	// order) go to different clients and commute
+	for _, p := range ps {
+		w.k.Run(p, kernel.Decision{})
+	}
+}
+
+// inflight is the number of deliveries for c that are blocked on its channel right now.
+func (w *world) inflight(c *client) int {
+	n := w.owed(c)
+	late := len(w.bcasts) - c.firstB // broadcasts since it connected
+	if late > w.unstarted {
+		late = w.unstarted
+	}
+	n -= late
+	if n < 0 {
+		n = 0
+	}
+	return n
 }
 
 func (w *world) note(format string, a ...any) {
@@ -184,8 +230,12 @@ func (w *world) broadcast() {
 		}
 		w.rc.Fail("C19/broadcaster-blocked", "broadcast #%d (%s) did not return while clients were %v", n, payload, st)
 	}
+	w.unstarted++
+	if !w.t.Chance(1, 3, "hold-deliveries") {
+		w.startDeliveries()
+	}
 	for _, c := range w.clients {
-		if !c.isGone() && w.owed(c) > 0 && w.parked(c) != nil {
+		if !c.isGone() && w.inflight(c) > 0 && w.parked(c) != nil {
 			w.k.Count("probe_delivery_pending_behind_parked_client", 1)
 		}
 	}
@@ -212,7 +262,7 @@ func (w *world) describe(c *client) string {
 
 // mustFail: the only continuation that keeps every select single-ready is a failed write.
 func (w *world) mustFail(c *client) bool {
-	return c.stalled || (c.cancelled && w.owed(c) > 0)
+	return c.stalled || (c.cancelled && w.inflight(c) > 0)
 }
 
 func (w *world) release(c *client) {
@@ -226,8 +276,11 @@ func (w *world) release(c *client) {
 
 func (w *world) fail(c *client) {
 	p := w.parked(c)
-	if w.owed(c) > 0 {
+	if w.inflight(c) > 0 {
 		w.k.Count("probe_disconnect_with_delivery_pending", 1)
+	}
+	if w.owed(c) > w.inflight(c) {
+		w.k.Count("probe_disconnect_before_delivery_goroutine_ran", 1)
 	}
 	c.failed = true
 	w.k.Count("fault_write_failed", 1)
@@ -238,6 +291,9 @@ func (w *world) fail(c *client) {
 }
 
 func (w *world) cancelIdle(c *client) {
+	if w.owed(c) > 0 {
+		w.k.Count("probe_disconnect_before_delivery_goroutine_ran", 1)
+	}
 	c.cancelled = true
 	w.k.Count("fault_cancel_idle", 1)
 	w.note("cancel idle %s", c.name)
@@ -271,6 +327,12 @@ func (w *world) run() {
 			acts = append(acts, act{wConnect, w.connect})
 		}
 		acts = append(acts, act{wBcast, w.broadcast})
+		if len(w.deliveries()) > 0 {
+			acts = append(acts, act{wRelease, func() {
+				w.note("start pending deliveries")
+				w.startDeliveries()
+			}})
+		}
 		allIdleOrStalled := true
 		// maxAdv: how far the clock may move without a ping timer firing for a client that is
 		// parked in an event write (which would later face a select with two ready cases)
@@ -297,7 +359,7 @@ func (w *world) run() {
 							w.k.Count("fault_stall", 1)
 							w.note("stall %s", c.name)
 						}})
-						if w.owed(c) == 0 {
+						if w.inflight(c) == 0 {
 							acts = append(acts, act{wCancel, func() {
 								c.cancelled = true
 								w.k.Count("fault_cancel_in_write", 1)
@@ -358,6 +420,7 @@ func (w *world) drainAndCheck() {
 	rc := w.rc
 	w.note("drain")
 	// Faults have stopped: let every healthy client run until it is idle.
+	w.startDeliveries()
 	for i := 0; i < 10000; i++ {
 		var ps []*client
 		for _, c := range w.clients {
@@ -417,6 +480,7 @@ func (w *world) drainAndCheck() {
 			w.cancelIdle(c)
 		}
 	}
+	w.startDeliveries()
 	w.k.Quiesce()
 	for _, c := range w.clients {
 		if !c.isGone() {
@@ -434,6 +498,8 @@ func simWorld(rc *kernel.RunCtx) {
 		start := time.Now()
 		u, _ := url.Parse("http://127.0.0.1:1")
 		w.h = proxy.New(slog.New(slog.NewTextHandler(io.Discard, nil)), "127.0.0.1", 7331, u)
+		simhook.SetGoStart(func(site string) { k.Park("go:"+site, "start", "", nil) })
+		defer simhook.SetGoStart(nil)
 		w.run()
 		simDur = time.Since(start)
 	})
